@@ -33,9 +33,28 @@ func (e *Exec) callSummarised(caller *frame, pos token.Pos, fn *ssa.Function, fi
 	pcLen := len(e.pc)
 	jLen := len(e.journal)
 	steps0 := e.steps
+	d := e.dec
 	var alts [][]decision
-	alts = append(alts, nil)
+	replaying := false
+	if d.pos < len(d.prefix) {
+		rec := d.prefix[d.pos]
+		d.pos++
+		if rec.subAbort {
+			return nil, false
+		}
+		if rec.sub == nil {
+			panic("decision log out of sync at summarised call " + fi.name)
+		}
+		replaying = true
+		// run recorded local paths in recorded order (alts is popped from the end)
+		for i := len(rec.sub) - 1; i >= 0; i-- {
+			alts = append(alts, rec.sub[i])
+		}
+	} else {
+		alts = append(alts, nil)
+	}
 	var results []sumResult
+	var record [][]decision
 	cellT := map[*Value]types.Type{}
 	abort := func() {
 		e.model = nil
@@ -43,6 +62,10 @@ func (e *Exec) callSummarised(caller *frame, pos token.Pos, fn *ssa.Function, fi
 		e.pc = e.pc[:pcLen]
 		e.undoTo(jLen)
 		e.stats.SummaryAborts++
+		if !replaying {
+			d.prefix = append(d.prefix, decision{subAbort: true})
+			d.pos++
+		}
 	}
 	for len(alts) > 0 {
 		if len(results) > e.P.cfg.MaxSummaryPaths {
@@ -51,7 +74,12 @@ func (e *Exec) callSummarised(caller *frame, pos token.Pos, fn *ssa.Function, fi
 		}
 		prefix := alts[len(alts)-1]
 		alts = alts[:len(alts)-1]
-		e.local = &decider{prefix: prefix, alts: &alts}
+		var sink [][]decision
+		if replaying {
+			e.local = &decider{prefix: prefix, alts: &sink}
+		} else {
+			e.local = &decider{prefix: prefix, alts: &alts}
+		}
 		var ret Value
 		failed := false
 		func() {
@@ -78,6 +106,10 @@ func (e *Exec) callSummarised(caller *frame, pos token.Pos, fn *ssa.Function, fi
 			abort()
 			return nil, false
 		}
+		if replaying && len(sink) > 0 {
+			panic("summary replay produced fresh alternatives in " + fi.name)
+		}
+		record = append(record, e.local.prefix)
 		// path condition of this local path
 		cond := e.ctx.True
 		for _, t := range e.pc[pcLen:] {
@@ -102,6 +134,10 @@ func (e *Exec) callSummarised(caller *frame, pos token.Pos, fn *ssa.Function, fi
 		e.undoTo(jLen)
 		e.pc = e.pc[:pcLen]
 		results = append(results, sr)
+	}
+	if !replaying {
+		d.prefix = append(d.prefix, decision{sub: record})
+		d.pos++
 	}
 	e.local = nil
 	e.model = nil
